@@ -32,7 +32,7 @@ def sv(file, twin):
     def dtor_call(ix, mn):      # reinterpret_cast<T *>(&_data[ix])->~T();
         return [r'\(ELEM \*\)\((&self->_data\[%s\])\)->~ELEM\(\);' % ix, r'ELEM_destroy((ELEM *)(\1));', mn]
     # operator=: `if (this == &other) return *this; clear();` exists only in the repaired code (C14_assign_over_live.patch)
-    self_guard = [r'\(this == &\(\*other\)\)', '(self == other)', 0]
+    self_guard = [r'\(self == &\(\*other\)\)', '(self == other)', 0]
     pieces = [
         {'op': 'glue', 'text': '#include "c14_sv.h"\n#include "c14_std_stubs.h"\n'
                                '/* R4: the inline storage member, copied here as an anchor (the extraction stops if it changes):'},
@@ -84,14 +84,14 @@ def sv(file, twin):
           methods={'clear': 'static_vector_clear'},
           rewrite=[self_guard, [r'new \((&self->_data\[pos\])\) ELEM\(\(\*other\)\[pos\]\);',
                     r'ELEM_copy_construct(\1, static_vector_at_c(other, pos));', 1],
-                   [r'return \*this;', 'return self;', 1]]),
+                   [r'return \*self;', 'return self;', 1]]),
         f('operator=', 'static_vector_assign_move', occurrence=1, refs=['other'], ret='struct static_vector *',
           methods={'clear': 'static_vector_clear'},
           sig_rewrite=[[r'&\*other', '*other', 1]],
           rewrite=[self_guard, [r'new \((&self->_data\[pos\])\) ELEM\(' + NS + r'::move\(\(\*other\)\[pos\]\)\);',
                     r'ELEM_move_construct(\1, static_vector_at(other, pos));', 1],
                    [r'other->clear\(\)', 'static_vector_clear(other)', 0 if twin else 1],
-                   [r'return \*this;', 'return self;', 1]]),
+                   [r'return \*self;', 'return self;', 1]]),
         f('~static_vector', 'static_vector_dtor', ret='void',
           rewrite=[dtor_call('pos', 1)]),
     ]
@@ -150,7 +150,7 @@ def ss(file, twin):
             f('data', 'static_string_data'),
             f('clear', 'static_string_clear'),
             f('operator+=', 'static_string_append_char', ret='struct static_string *', methods={'push_back': 'static_string_push_back'},
-              rewrite=[[r'return \*this;', 'return self;', 1]]),
+              rewrite=[[r'return \*self;', 'return self;', 1]]),
             f('operator[]', 'static_string_at', occurrence=0, ret='char *', rewrite=[[r'return ', 'return &', 1]]),
             f('operator[]', 'static_string_at_c', occurrence=1, const_self=True),
         ]
